@@ -32,6 +32,7 @@ EXPLANATION = (
     " Round-4 triage: (16) NONE-SENTINEL - optional parts are tested with `is (not) None`, never by truthiness; (3, extended) every writer of Frame.focus_part that can store 'header' / 'footer' tests that the part exists; (17) the position ListBox.set_focus() parks in set_focus_pending is handed back to the walker only under an IndexError/KeyError handler; (18) every attribute the synthetic contents reader of Overlay / Frame reports is stored by the contents writer. Round 5: (19) GridFlow copies the display widget's focus back on every path of mouse_event / move_cursor_to_coords; (20) Frame.render gives each part the focus flag conjoined with the test that this part is the focus part, also through a temporary Filler."
     ' Round 8: (24) KIND: an enumerate() index that becomes a focus position / contents index counts all children, not a filtered walk.'
     ' Round-8 triage: (13) OPTCALL extended: a WidgetWrap subclass forwards an optional cursor method to the wrapped widget only under hasattr(self._w, .) (fix 3f5f19c).'
+    ' (25) GUARD: GridFlow stores the position taken from its display widget only under a test against the current number of cells (fix 0a00874).'
 )
 NOT_DECIDED = "Validity of the index after arbitrary edit histories (C16's arithmetic), the choice of the arrow-key target, which widgets are rendered with focus=True, ListBox focus bookkeeping."
 ASSUMPTIONS = []
@@ -856,6 +857,37 @@ def rule_widget_none_test(ctx: Ctx, clause="C08.23") -> RuleResult:
     return rr
 
 
+def rule_display_focus_in_range(ctx: Ctx) -> RuleResult:
+    """GridFlow copies the focus of its display widget back into focus_position after the display widget handled a key
+    or a click.  The display widget is a snapshot built *before* the event; a handler run by the event may have
+    edited the contents (a button that removes its own cell), and the contents list has already moved the focus.
+    The position computed from the snapshot is stored only where a test has shown it inside the current contents.
+    Before fix 0a00874 the stale position was stored as it was: keypress() raised IndexError 'No GridFlow child widget
+    at position 2' after the handler had run."""
+    from ..rules.exc import ExcEngine
+
+    p = ctx.p
+    rr = RuleResult("GUARD", "C08.25", "GridFlow stores the position taken from its display widget only under a test against the current number of cells", floor=1)
+    fi = p.func("urwid.widget.grid_flow.GridFlow._set_focus_from_display_widget")
+    cfg = cfg_of(fi)
+    stores = [n for n in cfg.nodes if isinstance(n.ast, ast.Assign) and any(isinstance(t, ast.Attribute) and t.attr == "focus_position" for t in n.ast.targets)]
+    if not stores:
+        raise AnalysisError("GridFlow._set_focus_from_display_widget: no store to focus_position")
+    for st in stores:
+        ok = False
+        for t in cfg.nodes:
+            if t.kind == "test" and "len(" in ast.unparse(t.ast) and "contents" in ast.unparse(t.ast):
+                if st not in ExcEngine._reach_without_edge(cfg, t, "T") or st not in ExcEngine._reach_without_edge(cfg, t, "F"):
+                    ok = True
+        v = st.ast.value
+        if isinstance(v, ast.Call) and callee_name(v) == "min" and "len(" in ast.unparse(v):
+            ok = True
+        rr.inst(norm(st.ast, 50), True, {"store": norm(st.ast, 60), "bounded_by_current_contents": ok})
+        if not ok:
+            rr.add(finding("GUARD", fi, st.ast, f"`{norm(st.ast, 60)}` stores a position computed from the display widget - a snapshot built before the event was handled - without comparing it with len(self.contents): a handler that removed a cell leaves the position out of range and keypress() / mouse_event() raise IndexError after the handler already ran", construct="display focus stored without a range test"))
+    return rr
+
+
 def rule_enumerate_alignment(ctx: Ctx) -> RuleResult:
     """A focus position is an index into `contents`.  Where a method finds the child to focus by walking the children
     with enumerate(), the number only is such an index if the walk goes over all of contents (or sequences zipped
@@ -951,6 +983,7 @@ def run(ctx: Ctx):
         rule_widget_none_test(ctx),
         optcall.run_optcall(p, "C08.13", ("urwid.widget",), floor=35),
         rule_enumerate_alignment(ctx),
+        rule_display_focus_in_range(ctx),
     ]
 
 
@@ -959,6 +992,7 @@ _C = "urwid/widget/columns.py"
 _G = "urwid/widget/grid_flow.py"
 _F = "urwid/widget/frame.py"
 MUTANTS = [
+    Mut("gridflow-display-focus-unbounded", "urwid/widget/grid_flow.py", "GridFlow._set_focus_from_display_widget", "        if position >= len(self.contents):\n", "        if False:\n", "GUARD|widget.grid_flow.GridFlow._set_focus_from_display_widget|display focus stored without a range test"),
     Mut("gridflow-empty-forwards-cursor-move", "urwid/widget/grid_flow.py", "GridFlow.move_cursor_to_coords", "        if not hasattr(self._w, \"move_cursor_to_coords\"):\n            return False  # no cells: the display widget is a plain Divider\n", "", "OPTCALL|widget.grid_flow.GridFlow.move_cursor_to_coords|GridFlow.move_cursor_to_coords: optional method forwarded to the wrapped widget unguarded"),
     Mut("gridflow-empty-forwards-pref-col", "urwid/widget/grid_flow.py", "GridFlow.get_pref_col", "        if not hasattr(self._w, \"get_pref_col\"):\n            return None  # no cells: the display widget is a plain Divider\n", "", "OPTCALL|widget.grid_flow.GridFlow.get_pref_col|GridFlow.get_pref_col: optional method forwarded to the wrapped widget unguarded"),
     Mut("pending-focus-on-emptied-list", "urwid/widget/listbox.py", "ListBox._set_focus_complete", "        if new_focus_widget is None or focus_pos == position:", "        if focus_pos == position:", "EXC|widget.listbox.ListBox._set_focus_complete|pending focus change completed on an emptied list"),
